@@ -39,7 +39,10 @@ RULE = (
 ASSUMPTIONS = ["JSON-LD @prefix dictionaries always carry a string @id (DESIGN 7.3)", "rdflib's own namespaces() is the meaning of a graph's prefix map"]
 
 P = ["a", "A", "b", "ab", "é", "", "@x", "a.b", "GO", "x y", " a", "a ", "b\n", "ſ"]
-U = ["u/", "u/x", "U/", "v#", "", "http://x/", "uu/", "vv#", "http://x/a_", "u/xy", " u/", "u/ ", "HTTP://X/"]
+U = ["u/", "u/x", "U/", "v#", "", "http://x/", "uu/", "vv#", "http://x/a_", "u/xy", " u/", "u/ ", "HTTP://X/",
+     # (a URI prefix is an arbitrary string: also one that looks like a JSON-LD keyword or starts with '@', and the
+     #  https twin of another one)
+     "@id", "@", "@example.org/user/", "https://x/"]
 
 
 def recs_key(c):
